@@ -23,7 +23,8 @@ EXPLANATION = (
     "type, divided by 8, consults no other size table, and |:bool| = 1 is the only special case; R7 the constness analyzer "
     "visits every sub-expression of a constant initialiser or rejects the whole expression (function calls, |x|); R8 the "
     "length of a fixed-size array is LLVMGetArrayLength of the pointee type of its storage address, not a quotient of sizes."
-    " ADDED LATER: R7 the constness analyzer visits or rejects every sub-expression; R8 |x| of a fixed array is LLVMGetArrayLength of the pointee type; R9 a named length is only read from an integer constant; C09.R7 (string literal bytes) is shared.")
+    " ADDED LATER: R7 the constness analyzer visits or rejects every sub-expression; R8 |x| of a fixed array is LLVMGetArrayLength of the pointee type; R9 a named length is only read from an integer constant; C09.R7 (string literal bytes) is shared."
+    " ROUNDS 5-6: C07.R5-EQUALS-STRUCTURAL is shared (a length read off a parameter type is the caller's only if the coercion compared every dimension).")
 
 VT = "alpha::value_type::ValueType::"
 
